@@ -235,6 +235,7 @@ func instrumentFile(pkg *packages.Package, f *ast.File, src []byte) []edit {
 		switch x := n.(type) {
 		case *ast.SelectStmt:
 			point()
+			guardSelectCases(x, &edits, off)
 			// the communications of the clauses are not separate scheduling points
 			for _, c := range x.Body.List {
 				cc := c.(*ast.CommClause)
@@ -277,6 +278,7 @@ func instrumentInner(n ast.Node, stack *[]ast.Node, point func(), info *types.In
 	*stack = append(*stack, n)
 	if sel, ok := n.(*ast.SelectStmt); ok {
 		point()
+		guardSelectCases(sel, edits, off)
 		for _, c := range sel.Body.List {
 			cc := c.(*ast.CommClause)
 			*stack = append(*stack, sel.Body, cc)
@@ -331,4 +333,45 @@ func instrumentNode(n ast.Node, point func(), info *types.Info, edits *[]edit, o
 		}
 	}
 	return true
+}
+
+// guardSelectCases wraps the channel expression of every non-default case in zzvsched.Sel(i, ..)
+// (i = index among the non-default cases, the order go/ssa uses for Select states).
+func guardSelectCases(sel *ast.SelectStmt, edits *[]edit, off func(token.Pos) int) {
+	n := 0
+	for _, c := range sel.Body.List {
+		if c.(*ast.CommClause).Comm != nil {
+			n++
+		}
+	}
+	if n < 2 {
+		return
+	}
+	i := 0
+	for _, c := range sel.Body.List {
+		cc := c.(*ast.CommClause)
+		if cc.Comm == nil {
+			continue
+		}
+		var ch ast.Expr
+		switch s := cc.Comm.(type) {
+		case *ast.SendStmt:
+			ch = s.Chan
+		case *ast.ExprStmt:
+			if u, ok := s.X.(*ast.UnaryExpr); ok {
+				ch = u.X
+			}
+		case *ast.AssignStmt:
+			if len(s.Rhs) == 1 {
+				if u, ok := s.Rhs[0].(*ast.UnaryExpr); ok {
+					ch = u.X
+				}
+			}
+		}
+		if ch != nil {
+			*edits = append(*edits, edit{off: off(ch.Pos()), end: off(ch.Pos()), text: fmt.Sprintf("zzvsched.Sel(%d, ", i)})
+			*edits = append(*edits, edit{off: off(ch.End()), end: off(ch.End()), text: ")"})
+		}
+		i++
+	}
 }
